@@ -61,7 +61,7 @@ func runC19(r *vf.Run) {
 		wf{"r2001", func() *gen.CSVFile { return gen.CSVWithValues(2001, []int{1500, 7}) }},
 	)
 	lrng := r.RNG("list")
-	for i := 0; i < r.Pick(14, 80); i++ {
+	for i := 0; i < r.Pick(50, 300); i++ {
 		id := fmt.Sprintf("rnd%03d", i)
 		n := []int{lrng.Intn(30), lrng.Intn(1200), lrng.Intn(3001)}[lrng.Intn(3)]
 		hostile := i%4 != 3
